@@ -569,6 +569,7 @@ FILES = ["/a", "/b", "/d/a", "/d/b", "/d/e/a", "/g/a"]
 DIRS = ["/d", "/d/e", "/g"]
 OPEN_VALID = ["r", "w", "rw", "rwc", "wc", "wct", "rwct", "wcn", "rwn", "a", "ra", "ac", "rac", "an", "wt", "rwt", "wa"]
 OPEN_VALID_NOTRUNC = [f for f in OPEN_VALID if "t" not in f]
+OPEN_INVALID = ["", "c", "t", "n", "ct", "rc", "rt", "rn", "at", "wat", "rat", "act"]
 
 
 def rand_bytes(rng, lo=1, hi=6):
@@ -713,7 +714,8 @@ class Gen:
                     pool = [f for f in pool if "n" not in f] if rng.random() < 0.9 else pool
                 free = [s for s in range(1, 5) if s not in fs.handles]
                 s = rng.choice(free) if free and rng.random() < 0.9 else rng.randrange(1, 5)
-                self.emit(["open", h, s, p, rng.choice(pool)])
+                flags = rng.choice(OPEN_INVALID) if rng.random() < 0.04 else rng.choice(pool)
+                self.emit(["open", h, s, p, flags])
                 return
         # namespace operations (by level)
         c = rng.random()
@@ -1147,7 +1149,7 @@ def durable_check(case, obs):
 
 
 # the known-finding classes (known_findings.txt), most specific first
-KNOWN_CLASSES = ["OpenOptsInvalid", "RootOp", "RenameSelf", "StaleHandle", "RenameDir", "RenameFile", "Recreate",
+KNOWN_CLASSES = ["RootOp", "RenameSelf", "StaleHandle", "RenameDir", "RenameFile", "Recreate",
                  "KindSwap"]
 
 
